@@ -164,11 +164,14 @@ where
     >(
         i: S,
     ) -> IResult<S, Vec<Tree>, E> {
-        use nom::character::complete::{char, none_of, space0};
+        use nom::character::complete::{char, space0};
+        // The next tree must follow. This is checked byte-wise: `none_of` on a byte slice
+        // takes a non-ASCII byte for a two-byte character and slices past the end of input.
+        let next_tree = |i: S| i.parse_template1(|c| !" \n".contains(c));
         context(
             "trees",
             cut(separated_list0(
-                delimited(space0, char('\n'), pair(S::sp, peek(none_of(" \n")))),
+                delimited(space0, char('\n'), pair(S::sp, peek(next_tree))),
                 Self::parse_tree,
             )),
         )
